@@ -236,7 +236,9 @@ def fuzz_history(s, hidx, weights, steps=(5, 30), text='plain', timing='any', ri
         except ET.ParseError:
             break
         kind = weighted_kinds(rng, weights)
-        msg = gen.rand_message(rng, state, kind, 100 + k, ids, pool=pool, timing=timing,
+        # message IDs usually ascend; in every fourth history they do not (an NCS restart, arrival order)
+        mid_ = (100 + k) if hidx % 4 != 1 else rng.choice([300 - 3 * k, 5, 100 + k, 1])
+        msg = gen.rand_message(rng, state, kind, mid_, ids, pool=pool, timing=timing,
                                shape_weights=shape_weights, selfref=selfref, rich=rich,
                                blank_carried=blank_carried, other_ro=other_ro, drop=drop)
         if kind == 'roDelete' and rng.random() < 0.2:
